@@ -2,10 +2,13 @@
 //! evaluate byte-level predicates; the TLA+ specifications in /verif/spec are the oracle.
 
 mod concr;
+mod crash;
 mod hooks;
 mod proofs;
+mod rec;
 mod refmodel;
 mod replay;
+mod shadow;
 mod term;
 mod watchdog;
 
@@ -19,6 +22,7 @@ fn main() {
     let r = match cmd.as_str() {
         "replay" => replay::main(rest),
         "proofs" => proofs::main(rest),
+        "crash" => crash::main(rest),
         other => Err(anyhow::anyhow!("unknown sub-command {other}")),
     };
     if let Err(e) = r {
